@@ -10,7 +10,8 @@ jobs = 4
 if args[:1] == ['-j']:
     jobs = int(args[1]); args = args[2:]
 sub = args[0] if args else ''
-PROPS = ['C%02d' % i for i in range(1, 21)]
+PROPS = os.environ.get('BENIGN_PROPS', '').split() or ['C%02d' % i for i in range(1, 21)]  # BENIGN_PROPS='C13 C16': only those checks
+RCHECK = os.environ.get('RCHECK', '/verif/bin/rcheck')
 known = {}
 kp = '/verif/benign/KNOWN_IMPRECISION.json'
 if os.path.exists(kp):
@@ -31,7 +32,7 @@ def run(bid):
         alarms, expected = [], []
         for prop in PROPS:
             e = dict(env, VERIF_HOME=os.path.join(t, 'vh'))
-            out = subprocess.run(['/verif/bin/rcheck', '-repo', r, '-prop', prop], env=e, capture_output=True, text=True).stdout
+            out = subprocess.run([RCHECK, '-repo', r, '-prop', prop], env=e, capture_output=True, text=True).stdout
             if any(l.startswith('VIOLATION') for l in out.splitlines()):
                 first = next((l for l in out.splitlines() if l.startswith(('REFUTED', 'UNDECIDED'))), '')
                 (expected if prop in known.get(bid, ()) else alarms).append(prop + ': ' + ' '.join(first.split())[:160])
